@@ -35,7 +35,7 @@ def gen_link_spec(rng: random.Random, i: int, name, max_seg=4, empty_vsl=True) -
         "rho_crit": round(rng.uniform(25.0, 40.0), 2),
         "v_free": round(rng.uniform(80.0, 125.0), 2),
         "a": round(rng.uniform(1.4, 2.4), 3),
-        "turnrate": round(rng.uniform(0.2, 3.0), 3),
+        "turnrate": rng.choice([1, 1, 2, 3]) if rng.random() < 0.25 else round(rng.uniform(0.2, 3.0), 3),
         "name": name,
     }
     if rng.random() < 0.35:
@@ -64,6 +64,9 @@ def gen_names(rng: random.Random, prefix: str, n: int, mode: str) -> list:
     if mode == "auto":
         return [None] * n
     names = [f"{prefix}{i}" for i in range(n)]
+    if mode == "weird":  # legal names that upset string formatting / parsing
+        pool = ["40%", "%d", "%s of %s", "{x}", "{}", "a b", "ramp 100%", "L+", "x_y_z", "", "Ünï"]
+        names = [rng.choice(pool) + (str(i) if rng.random() < 0.5 else "") or f"{prefix}{i}" for i in range(n)]
     if mode == "dup" and n >= 2:
         for _ in range(rng.randint(1, max(1, n // 2))):
             a, b = rng.sample(range(n), 2)
@@ -85,7 +88,7 @@ def gen_universe_spec(
     nd = rng.randint(*n_dests)
     nm = {k: name_mode for k in "nlod"}
     if name_mode == "mixed":
-        nm = {k: rng.choice(["unique", "unique", "dup", "auto"]) for k in "nlod"}
+        nm = {k: rng.choice(["unique", "unique", "dup", "auto", "weird"]) for k in "nlod"}
     return {
         "nodes": [{"name": x} for x in gen_names(rng, "N", nn, nm["n"])],
         "links": [
